@@ -23,37 +23,55 @@ def tla_str(s):
     return '"' + s.replace("\\", "\\\\").replace('"', '\\"') + '"'
 
 
-def replay(ctx, pkg, files, run, cases, env=None, want_cases=None, timeout=1200, case_of=None):
+def replay(ctx, pkg, files, run, cases, env=None, want_cases=None, timeout=1200, selftests=None):
     """Run TLC-generated cases through an in-package harness; every reported deviation goes to ctx.deviation.
-    Returns (results, summary)."""
-    res, summ, out = ctx.harness(pkg, files, run, cases, env=env or {}, timeout=timeout)
-    n = want_cases if want_cases is not None else (len(cases) if not isinstance(cases, str) else None)
-    if n is not None and summ["cases"] != n:
-        raise vlib.Inconclusive("harness %s replayed %d of %d cases" % (run, summ["cases"], n))
-    for r in res:
+    cases: list of case objects, or the path of an NDJSON file (then want_cases = number of lines).
+    selftests: [(name, good_case, corrupt_fn)] - binding self-test riding on the same harness run: the pair
+    (good_case, corrupt_fn(copy)) is appended after the real cases; the harness must accept the good one (apart from
+    listed known findings) and must report a fresh deviation for the corrupted one.
+    Returns (results of the real cases, summary)."""
+    st_cases = []
+    for name, good, corrupt in (selftests or []):
+        st_cases.append(good)
+        st_cases.append(corrupt(json.loads(json.dumps(good))))
+    if isinstance(cases, str):
+        if want_cases is None:
+            raise vlib.Inconclusive("replay from a file needs the number of cases")
+        nmain = want_cases
+        with open(cases, "a") as f:
+            for c in st_cases:
+                f.write(json.dumps(c, separators=(",", ":")))
+                f.write("\n")
+        feed = cases
+    else:
+        nmain = len(cases)
+        feed = list(cases) + st_cases
+    res, summ, out = ctx.harness(pkg, files, run, feed, env=env or {}, timeout=timeout)
+    if summ["cases"] != nmain + len(st_cases):
+        raise vlib.Inconclusive("harness %s replayed %d of %d cases" % (run, summ["cases"], nmain + len(st_cases)))
+    summ["cases"] = nmain
+    main = [r for r in res if r["case"] < nmain]
+    for r in main:
         for d in r.get("devs", []):
-            c = r.get("obs")
-            if case_of:
-                c = case_of(r)
-            ctx.deviation(d["sig"], d["what"], c)
-    # deviations beyond the first few per signature are only counted by the harness
+            ctx.deviation(d["sig"], d["what"], r.get("obs"))
     ctx.cov["evaluations"] += summ.get("calls", summ["cases"])
-    return res, summ
-
-
-def selftest(ctx, pkg, files, run, good_case, corrupt, env=None, name="corrupted_expectation_detected"):
-    """Binding self-test: the harness must accept good_case and must report a deviation for corrupt(good_case)."""
-    bad = corrupt(json.loads(json.dumps(good_case)))
-    res, summ, out = ctx.harness(pkg, files, run, [good_case, bad], env=env or {})
-    devs_good = [d for r in res if r["case"] == 0 for d in r.get("devs", [])]
-    devs_bad = [d for r in res if r["case"] == 1 for d in r.get("devs", [])]
-    # deviations of the good case that are known findings do not count
-    fresh_good = [d for d in devs_good if ctx.known_match(d["sig"]) is None]
-    fresh_bad = [d for d in devs_bad if ctx.known_match(d["sig"]) is None]
-    ok = (not fresh_good) and bool(fresh_bad)
-    st = ctx.cov.setdefault("binding_selftest", {})
-    st[name] = ok
-    if not ok:
-        raise vlib.Inconclusive("binding self-test %s failed: good case deviations %s, corrupted case deviations %s"
-                                % (name, fresh_good[:2], fresh_bad[:2]))
-    return ok
+    # binding self-test
+    st = ctx.cov.setdefault("binding_selftest", {}) if selftests else None
+    for i, (name, good, corrupt) in enumerate(selftests or []):
+        fresh = {}
+        for k in (nmain + 2 * i, nmain + 2 * i + 1):
+            fresh[k] = [d for r in res if r["case"] == k for d in r.get("devs", []) if ctx.known_match(d["sig"]) is None]
+        if fresh[nmain + 2 * i]:
+            # the real code deviates on the reference case itself (a finding; reported here too) - cannot be evaluated
+            for d in fresh[nmain + 2 * i]:
+                ctx.deviation(d["sig"], d["what"], good)
+            st[name] = "not evaluated: the reference case itself deviates on this tree"
+        elif fresh[nmain + 2 * i + 1]:
+            st[name] = True
+        elif ctx.violations:
+            # harnesses cap the reports per signature: with violations around, a missing report proves nothing
+            st[name] = "not evaluated: violations reported on this tree"
+        else:
+            st[name] = False
+            raise vlib.Inconclusive("binding self-test %s failed: the corrupted case was accepted" % name)
+    return main, summ
